@@ -14,6 +14,16 @@ CLAIMED = {
         note="Reals in the theorems (a float-level statement at distance exactly one voxel size is not claimed); correspondence on generated grids incl. extents that are exact multiples of the voxel size and points on the upper boundary; extraction incl. ExtrOCamlInt63; ASan as observer of out-of-range walks.",
         technique="Coq proof over R/Z of a hand-written Gallina model + differential correspondence (extracted model vs C++ under sanitizers) + property oracle",
         design="§6 C20"),
+    "C03": dict(
+        text="Theorems over R about the Gallina transcription of update_nodes_positions (Integrator.v): time advances by exactly dt per update (n*dt after n); for contact models 0 and 1 the loop over cells and node slots gives every node exactly the value the documented law prescribes (list equality with the per-node specification: semi-implicit Euler / overdamped closed forms, each live node of each non-static cell once, coupled pairs together, static cells and unused slots untouched), forces of integrated nodes are zero afterwards, a mutually coupled pair receives the same displacement and momentum and the averaging keeps total momentum and force; well-formedness is preserved so the law holds over any number of steps. The same Gallina term at binary64 is compared bit-for-bit with the real integrator in all six compile-time configurations (contact 0/1/2 x dynamic 0/1); an independent closed-form recomputation judges the implementation's outputs.",
+        note="Reals in the theorems; couplings mutual, none into a static cell, list index = local id (C08's invariant) are hypotheses (WF); contact model 2 is covered by the correspondence and the oracle only (its group update is a known finding: position advanced with the pre-update momentum); single-threaded runs.",
+        technique="Coq proof (loop invariant over the processed prefix) of a hand-written Gallina model + bit-exact differential correspondence in six compile-time configurations + closed-form oracle",
+        design="§6 C03"),
+    "C04": dict(
+        text="Theorems over R (ln/exp) about the Gallina transcription of update_target_volume, update_pressure, is_ready_to_divide, is_below_min_vol, the 3-sigma cap of initialize_random_properties, the initial target volume of the solver constructor and the removal filter: target volume = max(V_t + g*dt, V_min) and >= V_min over every history, pressure = min(-K ln(V/V_t), P_max), eligibility iff epithelial and V >= V_div, drawn values within mean +- 3 sigma (sigma = 0 and infinite mean included), removal iff below the minimum, initial pressure reproduced. The same Gallina functions at binary64 (log/exp from the shared glibc) recompute every (cell, iteration) step of real cells of all five classes and of the real solver from the implementation's own volume trajectory, bit-for-bit; draws are replayed from the wrapped clock with a search for draws beyond 3 sigma.",
+        note="Reals in the theorems; log/exp enter as arguments (shared libm), not axioms; the first iteration of a daughter cell and the volume at the moment of removal are not observable without hooks (checked through the imposed scaling instead).",
+        technique="Coq proof over R of a hand-written Gallina model + bit-exact recomputation of the recurrences along the implementation's trajectory + law oracle",
+        design="§6 C04"),
 }
 
 PENDING_REASON = "not claimed yet: model, theorems and correspondence for this property are still being built (see DESIGN.md §9 staging); nothing is asserted about it"
